@@ -84,7 +84,7 @@ def _chunk(args):
             base = tl.render_prog(rules)
         ref = oracles.impl_models(base, H)
         if ref[0] == "err":
-            if ref[1] not in ("RuntimeError", "ClingoError"):
+            if ref[1] not in ("RuntimeError", "ClingoError", "Timeout"):
                 fails.append({"kind": "exception", "text": base, "error": ref[1], "message": ref[2]})
             continue
         kind = "del" if (alias is None and r.random() < 0.25) else "tel"
@@ -102,7 +102,7 @@ def _chunk(args):
         c2 = base + "\n#program initial. :- not &{} {{ {} }}.".format(kind, ftxt)
         ro, r1, r2 = oracles.impl_models(obs, H), oracles.impl_models(c1, H), oracles.impl_models(c2, H)
         for rr, t in ((ro, obs), (r1, c1), (r2, c2)):
-            if rr[0] == "err":
+            if rr[0] == "err" and rr[1] != "Timeout":
                 fails.append({"kind": "exception", "text": t, "error": rr[1], "message": rr[2]})
         if "err" in (ro[0], r1[0], r2[0]):
             continue
@@ -155,7 +155,7 @@ def _corr_one(args):
         if isinstance(e, KeyboardInterrupt):
             raise
         c = tl.classify_exc(e)
-        if c in ("RuntimeError", "ClingoError"):
+        if c in ("RuntimeError", "ClingoError", "Timeout"):
             return {"pairs": 0, "equations_evaluated": 0, "horizons": 0}, []
         return {"pairs": 0, "equations_evaluated": 0, "horizons": 0}, [{"layer": "L4", "text": text, "what": "exception " + c + ": " + str(e)[:200]}]
 
